@@ -7,6 +7,7 @@ the rejection sampler through all its retries into the dense fallback).  Every
 completed execution is checked against the shape promised by the property.
 """
 import itertools
+import math
 
 from engine import xp, tt
 from engine.common import setup_paths
@@ -52,6 +53,10 @@ def preload():
 
 # ------------------------------------------------------------ reference --
 def compatible_clauses(k, n, planted):
+    if n > 8:
+        # closed form for the large scripted cases (no or one total assignment)
+        assert len(planted) <= 1 and all(len(a) == n for a in planted)
+        return math.comb(n, k) * (2 ** k - len(planted))
     tot = 0
     for dom in itertools.combinations(range(1, n + 1), k):
         for pol in itertools.product((1, -1), repeat=k):
@@ -66,6 +71,9 @@ def parity_ok(X, b, a):
 
 
 def compatible_parities(k, n, planted):
+    if n > 8:
+        assert len(planted) <= 1 and all(len(a) == n for a in planted)
+        return math.comb(n, k) * (2 - len(planted))
     tot = 0
     for X in itertools.combinations(range(1, n + 1), k):
         for b in (0, 1):
@@ -213,6 +221,20 @@ def judge(case, x):
                     if not parity_ok(X, b, a):
                         bad('planted', 'parity %r=%r violated by planted %r' % (X, b, a))
                         break
+            if n > 16:
+                # large scripted case: clause set == documented encoding of the
+                # recorded parities (a clause over X forbids the assignment
+                # falsifying all its literals, whose parity is #negations)
+                exp_cls = set()
+                for X, b in ps:
+                    for pol in itertools.product((1, -1), repeat=len(X)):
+                        if sum(1 for s_ in pol if s_ < 0) % 2 != b:
+                            exp_cls.add(frozenset(s_ * v for s_, v in zip(pol, X)))
+                got_cls = [frozenset(c) for c in r['clauses']]
+                if set(got_cls) != exp_cls or len(got_cls) != len(exp_cls):
+                    bad('xor-models', 'clauses do not denote the recorded system (%d clauses, '
+                        '%d expected)' % (len(got_cls), len(exp_cls)))
+                return out, 'returned_formula'
             # the clauses are exactly the solutions of the linear system
             exp = tt.columns(n)[0]
             cols = tt.columns(n)
@@ -283,7 +305,11 @@ def run_case(case, R):
     st = xp.explore(body, on_result, hashing=case.get('hashing', True),
                     horizon=case.get('horizon', 400),
                     max_dev=case.get('max_dev'),
-                    max_execs=case.get('max_execs', 150000))
+                    max_execs=case.get('max_execs', 150000),
+                    default=case.get('default', 'zero'),
+                    default_seed=case.get('default_seed', 0))
+    if case.get('scripted'):
+        R.stats['scripted_large_runs'] += 1
     if case.get('max_dev') is not None:
         R.stats['cases_deviation_bounded'] += 1
     for key in ('executions', 'states', 'transitions', 'cut', 'horizon', 'cap_hit',
@@ -390,6 +416,29 @@ def cases(tier, seed):
             for plant in (False, True):
                 cs.append({'kind': kind, 'k': k, 'n': n, 'm': m, 'plant': plant,
                            'hashing': False, 'max_dev': dev, 'max_execs': 200000})
+    # realistic sizes: the full outcome space is out of reach, so these run
+    # under a handful of scripted generators (max_dev = 0: exactly the default
+    # schedule): pseudo-random 'mix' schedules, and 'zero:T' schedules whose T
+    # identical answers drive the sampler through 10*m failed draws into its
+    # dense fallback.  Same oracle as the exhaustive box.
+    big = [('kcnf', 3, 300, 500, 'none', 'mix'), ('kcnf', 3, 300, 500, 'one', 'mix'),
+           ('kcnf', 2, 257, 300, 'none', 'mix'), ('kcnf', 1, 300, 300, 'one', 'mix'),
+           ('kcnf', 1, 300, 301, 'one', 'mix'), ('kcnf', 1, 300, 600, 'none', 'mix'),
+           ('kxor', 3, 300, 400, 'none', 'mix'), ('kxor', 3, 260, 300, 'one', 'mix'),
+           ('kxor', 1, 300, 300, 'one', 'mix'), ('kxor', 1, 300, 301, 'one', 'mix'),
+           ('kxor', 2, 258, 520, 'none', 'mix'),
+           ('kcnf', 2, 12, 40, 'none', 'zero:3000'), ('kcnf', 2, 12, 262, 'none', 'zero:40000'),
+           ('kcnf', 3, 11, 30, 'one', 'zero:3000'), ('kxor', 2, 12, 40, 'none', 'zero:3000'),
+           ('kxor', 3, 11, 30, 'one', 'zero:3000'), ('kxor', 2, 12, 131, 'none', 'zero:20000'),
+           ('kcnf', 2, 12, 264, 'none', 'mix'), ('kcnf', 2, 12, 265, 'none', 'mix'),
+           ('kxor', 2, 12, 132, 'none', 'mix'), ('kxor', 2, 12, 133, 'none', 'mix')]
+    for (kind, k, n, m, pname, sched) in big:
+        mixed = [v if v % 3 else -v for v in range(1, n + 1)]
+        for ds in ((1, 2, 3) if thorough else (1, 2)):
+            cs.append({'kind': kind, 'k': k, 'n': n, 'm': m, 'pname': pname,
+                       'planted': [mixed] if pname == 'one' else [],
+                       'scripted': True, 'hashing': False, 'max_dev': 0, 'default': sched,
+                       'default_seed': ds, 'horizon': 5000000, 'max_execs': 5})
     if not thorough:
         # two designated heavy cases: exact maximum / dense fallback with m=4
         cs.append({'kind': 'kcnf', 'k': 1, 'n': 2, 'm': 4, 'planted': [], 'pname': 'none'})
@@ -417,6 +466,8 @@ def shards(tier, seed):
     def weight(c):
         if c['kind'].startswith('cli'):
             return 10 ** 6 + c['m'] * c.get('max_dev', 1)
+        if c.get('scripted'):
+            return 10 ** 5
         return estimate(c['kind'], c['k'], c['n'], c['m'], c.get('planted', [])) * (1 + c['m'])
     cs.sort(key=lambda c: -weight(c))
     out = []
